@@ -386,25 +386,25 @@ func writeEvidence(p *Program, cr *checkResult, verif string, seed, violations i
 		assumptions = append(assumptions, "UNMATCHED-CONTRACT (no obligations generated): "+u)
 	}
 	cov := map[string]any{
-		"obligations":              len(all) - excluded,
+		"obligations":                            len(all) - excluded,
 		"obligations_excluded_as_known_findings": excluded,
-		"discharged":               discharged,
-		"checker_cmd":              fmt.Sprintf("/verif/bin/check %s %s  (govc: go/ssa VC generation from /repo working tree with -tags verif; one SMT-LIB query per obligation; portfolio z3 4.8.12 -> z3 5.1.0 -> cvc5 1.0)", cr.prop, cr.tier),
-		"trusted_base":             []string{"go/ssa construction (x/tools v0.29.0)", "govc SSA->SMT translation (/verif/govc)", "z3 4.8.12 / z3 5.1.0 / cvc5 1.0.x", "spec functions and reference automata in /verif/spec (formal reading of the documentation)", "assumed contracts listed under assumptions"},
-		"functions_under_contract": fns,
-		"inlined_functions":        keys(inl),
-		"obligations_by_kind":      byKind,
-		"discharged_by_solver":     bySolver,
-		"solver_seconds_by_solver": roundMap(timeBySolver),
-		"solver_seconds_total":     round3(solverTime),
-		"load_and_ssa_seconds":     round3(loadS),
-		"undischarged":             undischarged,
-		"known_findings_reported":  known,
-		"samples":                  samples,
-		"contract_files":           relFiles(p.contracts.Files, p.repoDir),
-		"spec_files":               relFiles(p.prelude.files, verif),
-		"not_covered":              notCovered[cr.prop],
-		"bounded_standins":         []string{},
+		"discharged":                             discharged,
+		"checker_cmd":                            fmt.Sprintf("/verif/bin/check %s %s  (govc: go/ssa VC generation from /repo working tree with -tags verif; one SMT-LIB query per obligation; portfolio z3 4.8.12 -> z3 5.1.0 -> cvc5 1.0)", cr.prop, cr.tier),
+		"trusted_base":                           []string{"go/ssa construction (x/tools v0.29.0)", "govc SSA->SMT translation (/verif/govc)", "z3 4.8.12 / z3 5.1.0 / cvc5 1.0.x", "spec functions and reference automata in /verif/spec (formal reading of the documentation)", "assumed contracts listed under assumptions"},
+		"functions_under_contract":               fns,
+		"inlined_functions":                      keys(inl),
+		"obligations_by_kind":                    byKind,
+		"discharged_by_solver":                   bySolver,
+		"solver_seconds_by_solver":               roundMap(timeBySolver),
+		"solver_seconds_total":                   round3(solverTime),
+		"load_and_ssa_seconds":                   round3(loadS),
+		"undischarged":                           undischarged,
+		"known_findings_reported":                known,
+		"samples":                                samples,
+		"contract_files":                         relFiles(p.contracts.Files, p.repoDir),
+		"spec_files":                             relFiles(p.prelude.files, verif),
+		"not_covered":                            notCovered[cr.prop],
+		"bounded_standins":                       []string{},
 	}
 	ev := map[string]any{
 		"property_id": cr.prop,
